@@ -27,7 +27,7 @@ GARBAGE_VARIANTS = 6
 # --------------------------------------------------------------------------------------------
 # running the harness (a corrupt payload can ABORT the process under test: attribute and resume)
 
-def _qev_resumable(sub, cases, tag, ctx, heavy=0, timeout=3000):
+def _qev_resumable(sub, cases, tag, ctx, heavy=0, abort_budget=1, timeout=6000):
     inp = os.path.join(ctx.work, f"{tag}.in.ndjson")
     outp = os.path.join(ctx.work, f"{tag}.out.ndjson")
     files = os.path.join(ctx.work, f"{tag}.files")
@@ -40,22 +40,22 @@ def _qev_resumable(sub, cases, tag, ctx, heavy=0, timeout=3000):
     kills = 0
 
     def complete_lines():
-        """records written so far; a line cut short by a kill is dropped from the file"""
+        """number of records written so far; a line cut short by a kill is dropped from the file"""
         if not os.path.exists(outp):
-            return []
+            return 0
         raw = open(outp, "rb").read()
         keep = raw[:raw.rfind(b"\n") + 1]
         if len(keep) != len(raw):
             with open(outp, "wb") as f:
                 f.write(keep)
-        return [json.loads(l) for l in keep.decode().splitlines() if l.strip()]
+        return keep.count(b"\n")
     try:
         while rest:
             write_ndjson(inp, rest)
-            p = vlib.qev([sub, inp, outp, files, str(heavy)], timeout=timeout, check=False)
-            recs = complete_lines()
-            new = len(recs) - done
-            done = len(recs)
+            p = vlib.qev([sub, inp, outp, files, str(heavy), str(max(0, abort_budget - aborts))], timeout=timeout, check=False)
+            nrec = complete_lines()
+            new = nrec - done
+            done = nrec
             if p.returncode == 0:
                 if new != len(rest):
                     raise vlib.ToolError(f"qev {sub} returned {new} records for {len(rest)} cases")
@@ -93,13 +93,13 @@ def _qev_resumable(sub, cases, tag, ctx, heavy=0, timeout=3000):
         shutil.rmtree(files, ignore_errors=True)
 
 
-def run_parallel(sub, cases, tag, ctx, procs, heavy=0):
+def run_parallel(sub, cases, tag, ctx, procs, heavy=0, abort_budget=1):
     if not cases:
         return []
     procs = max(1, min(procs, len(cases) // 50 + 1))
     chunks = [cases[k::procs] for k in range(procs)]
     with concurrent.futures.ThreadPoolExecutor(max_workers=procs) as ex:
-        futs = [ex.submit(_qev_resumable, sub, ch, f"{tag}{k}", ctx, heavy) for k, ch in enumerate(chunks)]
+        futs = [ex.submit(_qev_resumable, sub, ch, f"{tag}{k}", ctx, heavy, abort_budget) for k, ch in enumerate(chunks)]
         outs = [f.result() for f in futs]
     recs = [r for o in outs for r in o]
     recs.sort(key=lambda r: r["cid"])
@@ -192,6 +192,14 @@ def concretise(c, stmt, topo, rng, cid, light=False):
     return case
 
 
+STMT_WEIGHT = {"group": 0.12, "join": 0.3}    # the engine's GROUP BY / join paths cost 0.2-1 s per execution on this data; the others ~5-30 ms
+
+
+def choose_stmt(stmts, rng):
+    w = [STMT_WEIGHT.get(s, 1.0) for s in stmts]
+    return rng.choices(stmts, weights=w, k=1)[0]
+
+
 def abstract_key(c):
     return (c["shape"], c["n"], c["self"], tuple(c["k"]), tuple(sorted((f["t"], f["i"], f["kind"], f["kept"]) for f in c["frags"])), tuple(c["locals"]))
 
@@ -241,8 +249,8 @@ def kind_of_send(plan, s):
         return "digest"
     if k == "garbage":
         return "corrupt"
-    if k == "flip":
-        return "flip"
+    if k in ("flip", "flip_bodylen"):
+        return "ok" if "unresolved" in s else "flip"
     if k == "trunc":
         if "unresolved" in s:
             return "ok"
@@ -260,6 +268,13 @@ def kind_of_send(plan, s):
     raise vlib.ToolError(f"cannot classify send {s} under plan {plan}")
 
 
+def flips_kept_their_rows(kinds, sends):
+    """a wrong answer counts as 'garbled' (cell values only) iff every corrupted payload still decoded to the number of
+    rows its worker declared: the coordinator could not have noticed; otherwise rows appeared or vanished ('short')"""
+    fl = [s for s in sends if "decoded_rows" in s]
+    return "flip" in kinds and bool(fl) and all(s.get("decoded_rows") is not None and s["decoded_rows"] == s.get("rows") for s in fl)
+
+
 def has_local(rec, t):
     act = rec["active"][t]
     return rec["self"] in act or not act
@@ -273,7 +288,7 @@ def trace_rec(rec):
         # the process died: the side file has the faulted sends only; the others are taken from the plan
         seen = {(s["t"], s["i"]) for s in sends}
         kinds = [kind_of_send(plans.get((s["t"], s["i"])), s) for s in sends]
-        kinds += [("flip" if f["kind"] == "flip" else "corrupt") for k, f in plans.items() if k not in seen and f["kind"] in ("flip", "garbage")]
+        kinds += [("corrupt" if f["kind"] == "garbage" else "flip") for k, f in plans.items() if k not in seen and f["kind"] in ("flip", "flip_bodylen", "garbage")]
     else:
         for s in sends:
             k = kind_of_send(plans.get((s["t"], s["i"])), s)
@@ -290,7 +305,7 @@ def trace_rec(rec):
             locals_.append("ok")
     o = rec["outcome"]
     if o in ("partial", "wrong"):
-        o = "garbled" if ("flip" in kinds and rec.get("rows_got") == rec.get("rows_full")) else "short"
+        o = "garbled" if flips_kept_their_rows(kinds, sends) else "short"
     return {"cid": rec["cid"], "bind": "inproc", "kinds": kinds, "locals": locals_ or ["none"], "outcome": o, "lost": lost}
 
 
@@ -320,7 +335,7 @@ def http_trace_rec(rec):
         kinds.append(k)
     o = rec["outcome"]
     if o in ("partial", "wrong"):
-        o = "garbled" if ("flip" in kinds and rec.get("rows_got") == rec.get("rows_full")) else "short"
+        o = "garbled" if flips_kept_their_rows(kinds, [s for s in rec.get("sends", []) if s.get("applied") == "flip"]) else "short"
     if o == "client_err":
         o = "err"
     return {"cid": rec["cid"], "bind": "http", "kinds": kinds, "locals": ["ok"], "outcome": o, "lost": lost}
@@ -436,7 +451,7 @@ def class_offsets(lay):
 def sweep_cases(topo, rng, quick, cid0):
     cases = []
     cid = cid0
-    stmts = ["concat", "global", "gunion"] if quick else ["concat", "group", "global", "topn", "join", "gdistinct", "gunion", "gunion2", "tiny"]
+    stmts = ["concat", "global", "gunion"] if quick else ["concat", "global", "topn", "gdistinct", "gunion", "gunion2", "tiny", "join"]
     pl = payloads(topo, stmts, [3] if quick else [2, 3, 4])
     keys = sorted(pl)
     for key in keys:
@@ -452,14 +467,15 @@ def sweep_cases(topo, rng, quick, cid0):
                 else:
                     offs += rng.sample(lst, min(12, len(lst)))
         else:
-            full = (n == 3) or stmt in ("concat", "gunion")
-            offs = list(range(s["len"] + 1)) if full else sorted(set(sum((l if c != "inmsg" else l[::5] for c, l in cls.items()), [])))
+            # every byte: concat and the two-table gather at every size, the other shapes at n = 3; else every 7th byte inside messages
+            full = stmt in ("concat", "gunion") or (n == 3 and stmt != "join")
+            offs = list(range(s["len"] + 1)) if full else sorted(set(sum((l if c != "inmsg" else l[::7] for c, l in cls.items()), [])))
         for off in sorted(set(offs)):
             cid += 1
             cases.append({"cid": cid, "stmt": stmt, "n": n, "self": me, "local": "ok", "swept": "trunc",
                           "faults": [{"t": t, "i": i, "kind": "trunc", "off": off}], "expect_cls": None})
     # single-byte corruption
-    fl = [k for k in keys if k[0] in ("concat", "global") and k[1] == 3 and k[3] == 2] if quick else [k for k in keys if k[1] == 3 and k[3] in (1, 2) and k[0] in ("concat", "group", "global", "gunion")]
+    fl = [k for k in keys if k[0] in ("concat", "global") and k[1] == 3 and k[3] == 2] if quick else [k for k in keys if k[1] == 3 and k[3] in (1, 2) and k[0] in ("concat", "global", "gunion")]
     for key in fl:
         stmt, n, t, i = key
         ln = pl[key]["len"]
@@ -469,6 +485,10 @@ def sweep_cases(topo, rng, quick, cid0):
                 cid += 1
                 cases.append({"cid": cid, "stmt": stmt, "n": n, "self": 0, "local": "ok", "swept": "flip",
                               "faults": [{"t": t, "i": i, "kind": "flip", "off": off, "xor": x}]})
+    # one bit of a 64-bit length field: the decoder is told to expect 2^48 more bytes
+    for stmt, n, t, i in ((("concat", 3, "t", 1), ("gunion", 3, "u", 2)) if quick else (("concat", 3, "t", 1), ("gunion", 3, "u", 2), ("global", 2, "t", 1), ("topn", 4, "t", 3), ("gdistinct", 3, "t", 2), ("tiny", 2, "w", 1))):
+        cid += 1
+        cases.append({"cid": cid, "stmt": stmt, "n": n, "self": 0, "local": "ok", "swept": "flip", "faults": [{"t": t, "i": i, "kind": "flip_bodylen"}]})
     return cases
 
 
@@ -499,8 +519,10 @@ def http_cases(rng, quick, cid0, hlay):
                 for off in (lst if c in ("boundary", "marker", "eos", "empty") else rng.sample(lst, min(4, len(lst)))):
                     add(stmt, n, [dict(base, kind="cut", body_off=off)])
         else:
-            fullsweep = stmt in ("concat", "gunion") or n == 2
-            for h in range(0, head + 2):
+            fullsweep = (stmt == "concat" and n == 2) or (stmt == "gunion" and n == 3) or stmt in ("global", "gdistinct")
+            if stmt in ("group", "join"):
+                cls = {c: (l if c not in ("inmsg",) else l[::40]) for c, l in cls.items()}
+            for h in (range(0, head + 2) if fullsweep else range(0, head + 2, 9)):
                 add(stmt, n, [dict(base, kind="cut", head_off=h)], "cut")
             for off in (range(s["body_len"] + 1) if fullsweep else sorted(set(sum((l if c != "inmsg" else l[::7] for c, l in cls.items()), [])))):
                 add(stmt, n, [dict(base, kind="cut", body_off=off)], "cut")
@@ -541,9 +563,9 @@ def model_runs(ctx, quick):
 
     def one(job):
         what, cfg = job
-        return job, run_tlc("Scatter", cfg, workers=(4 if quick else 6), timeout=3300, heap="6g", tag=f"C10-{cfg[:-4]}",
+        return job, run_tlc("Scatter", cfg, workers=(4 if quick else 5), timeout=3300, heap="6g", tag=f"C10-{cfg[:-4]}",
                             coverage=(cfg == "Scatter_thorough.cfg"))
-    with concurrent.futures.ThreadPoolExecutor(max_workers=2) as ex:
+    with concurrent.futures.ThreadPoolExecutor(max_workers=3) as ex:
         results = list(ex.map(one, jobs))
     cases = []
     cover = collections.Counter()
@@ -599,19 +621,20 @@ def run(ctx):
     if len(mcases) < 1000:
         raise vlib.ToolError(f"Scatter emitted only {len(mcases)} terminal states")
     real = realisations(topo)
-    picked, n_uniq, n_real = pick_model_cases(mcases, real, rng, 1100 if quick else 60000)
+    picked, n_uniq, n_real = pick_model_cases(mcases, real, rng, 1100 if quick else 24000)
     ctx.set("tlc_terminal_states", len(mcases))
     ctx.set("tlc_distinct_fault_vectors", n_uniq)
     ctx.set("tlc_fault_vectors_realisable_on_the_tables", n_real)
     cases, cid = [], 0
     for c in picked:
         stmts = real[(c["T"], c["n"], c["self"] - 1, tuple(c["k"][:c["T"]]))]
-        for stmt in ([rng.choice(stmts)] if (quick or nfaults(c) > 1) else stmts):
+        many = (not quick) and nfaults(c) <= 1
+        for stmt in ([s_ for s_ in stmts if s_ not in STMT_WEIGHT] + [choose_stmt([s_ for s_ in stmts if s_ in STMT_WEIGHT] or stmts, rng)] if many else [choose_stmt(stmts, rng)]):
             cid += 1
             cases.append(concretise(c, stmt, topo, rng, cid, light=quick))
     nvec = len(cases)
     cases += sweep_cases(topo, rng, quick, 1_000_000)
-    recs = run_parallel("dist-replay", cases, "rep", ctx, 3 if quick else 6, heavy=(0 if quick else 3))
+    recs = run_parallel("dist-replay", cases, "rep", ctx, 3 if quick else 6, heavy=(0 if quick else 1), abort_budget=(2 if quick else 3))
     # a corrupted length that would make the decoder zero 48 MB .. 16 TB is run only within a small per-process budget
     skipped = {r["cid"] for r in recs if r["outcome"] == "skipped"}
     ctx.set("corruptions_skipped_as_too_heavy", len(skipped))
@@ -622,7 +645,7 @@ def run(ctx):
 
     # ---- second binding: real sockets
     hprobe = []
-    hstm = [("concat", 2), ("gunion", 3)] if quick else [("concat", 2), ("concat", 3), ("group", 3), ("global", 2), ("topn", 3), ("join", 3), ("gdistinct", 2), ("gunion", 2), ("gunion", 3), ("gunion2", 3), ("tiny", 3)]
+    hstm = [("concat", 2), ("gunion", 3)] if quick else [("concat", 2), ("concat", 3), ("group", 2), ("global", 2), ("topn", 3), ("join", 2), ("gdistinct", 2), ("gunion", 2), ("gunion", 3), ("gunion2", 3), ("tiny", 3)]
     for k, (stmt, n) in enumerate(sorted(hstm, key=lambda x: x[1])):
         hprobe.append({"cid": 2_000_000 + k, "stmt": stmt, "n": n, "faults": [], "layout": 1})
     pr = run_parallel("dist-http", hprobe, "hprobe", ctx, 1)
@@ -636,7 +659,7 @@ def run(ctx):
     if not hlay:
         raise vlib.ToolError("no /fragment request went through the proxy")
     hcases = sorted(http_cases(rng, quick, 2_100_000, hlay), key=lambda c: (c["n"], c["cid"]))
-    hrecs = run_parallel("dist-http", hcases, "http", ctx, 1 if quick else 3)
+    hrecs = run_parallel("dist-http", hcases, "http", ctx, 1 if quick else 3, abort_budget=1)
     htrecs = [http_trace_rec(r) for r in hrecs]
     hcases_by = {c["cid"]: c for c in hcases}
     hskip = sum(1 for r in hrecs for s in r.get("sends", []) if s.get("applied") == "skipped")
@@ -700,7 +723,7 @@ def evidence(ctx, topo, cases, recs, trecs, hrecs, htrecs, nvec, quick):
     # fidelity: the coordinator sent exactly the active remote shards, to the right addresses
     wrong_sends = 0
     for r in recs:
-        if r["outcome"] == "abort":
+        if r["outcome"] in ("abort", "panic"):
             continue
         want = sorted((t, i) for t in r["tables"] for i in r["active"][t] if i != r["self"])
         got = sorted((s["t"], s["i"]) for s in r["sends"])
